@@ -7,7 +7,10 @@
 //   - isCloseable lists errClose in its switch (errClose_is_closeable);
 //   - handleLoop's for loop leaves with `return` when isCloseable(err) holds for
 //     the result of p.handle (loop_returns_on_closeable);
-//   - handleLoop defers conn.Close() (loop_defers_conn_close).
+//   - handleLoop defers conn.Close() (loop_defers_conn_close);
+//   - connect(): which answers of the downstream proxy are taken as "tunnel
+//     established, no body": `res.StatusCode/100 == 2` (downstream_any_2xx) as
+//     opposed to a comparison with 200 / http.StatusOK.
 //
 // Deliberately dumb: if a function or the expected shape is gone it fails
 // loudly (broken tie).
@@ -53,9 +56,42 @@ func main() {
 			funcs[fd.Name.Name] = fd
 		}
 	}
-	hc, hl, ic := funcs["handleConnectRequest"], funcs["handleLoop"], funcs["isCloseable"]
-	if hc == nil || hl == nil || ic == nil {
-		fail("handleConnectRequest / handleLoop / isCloseable not found in proxy.go")
+	hc, hl, ic, cn := funcs["handleConnectRequest"], funcs["handleLoop"], funcs["isCloseable"], funcs["connect"]
+	if hc == nil || hl == nil || ic == nil || cn == nil {
+		fail("handleConnectRequest / handleLoop / isCloseable / connect not found in proxy.go")
+	}
+
+	// 0. connect(): the test on the downstream proxy's status
+	isStatus := func(e ast.Expr) bool {
+		sel, ok := e.(*ast.SelectorExpr)
+		return ok && sel.Sel.Name == "StatusCode"
+	}
+	any2xx, found2xx := false, 0
+	ast.Inspect(cn.Body, func(n ast.Node) bool {
+		is, ok := n.(*ast.IfStmt)
+		if !ok {
+			return true
+		}
+		be, ok := is.Cond.(*ast.BinaryExpr)
+		if !ok || be.Op != token.EQL {
+			return true
+		}
+		if div, ok := be.X.(*ast.BinaryExpr); ok && div.Op == token.QUO && isStatus(div.X) {
+			d, ok1 := div.Y.(*ast.BasicLit)
+			v, ok2 := be.Y.(*ast.BasicLit)
+			if ok1 && ok2 && d.Value == "100" && v.Value == "2" {
+				any2xx = true
+				found2xx++
+			}
+			return true
+		}
+		if isStatus(be.X) {
+			found2xx++ // compared with one particular status
+		}
+		return true
+	})
+	if found2xx != 1 {
+		fail("connect(): expected exactly one test of the downstream response's StatusCode, found %d", found2xx)
 	}
 
 	// 1. the tunnel branch is the end of handleConnectRequest
@@ -142,7 +178,8 @@ func main() {
 		"Definition tunnel_returns_errClose : bool := " + b(retErrClose) + ".\n" +
 		"Definition errClose_is_closeable : bool := " + b(closeable) + ".\n" +
 		"Definition loop_returns_on_closeable : bool := " + b(loopRet) + ".\n" +
-		"Definition loop_defers_conn_close : bool := " + b(deferClose) + ".\n"
+		"Definition loop_defers_conn_close : bool := " + b(deferClose) + ".\n" +
+		"Definition downstream_any_2xx : bool := " + b(any2xx) + ".\n"
 	if err := os.WriteFile(filepath.Join(*out, "Gen_Ret.v"), []byte(src), 0o644); err != nil {
 		fail("%v", err)
 	}
